@@ -309,6 +309,12 @@ class Executor:
 
     def ev_List(self, node, st, sink):
         if not node.elts:
+            hook = self.w.call_hooks.get(("display", "emptylist"))
+            if hook is not None:
+                got = hook(self, node, st, sink)   # a sidecar may model one particular list object (shared with a nested function) as a heap object
+                if got is not None:
+                    yield from got
+                    return
             yield st, SV(SEQ(ANY), z3.Empty(z3.SeqSort(U)))  # retyped on first use by coerce_seq
             return
         if any(isinstance(e, ast.Starred) for e in node.elts):
@@ -957,7 +963,7 @@ class Executor:
             c = self.w.contracts.get(target)
             allargs = ([d.bound] if d.bound is not None else []) + args
             if c is not None and target != self.func_under_check_target_inlining():
-                yield from self.apply_contract(c, allargs, kwargs, st, sink, node)
+                yield from self.apply_contract(c, allargs, kwargs, st, sink, node, closure_env=d.closure)
             else:
                 yield from self.inline(d, allargs, kwargs, st, sink, node)
             return
@@ -1141,12 +1147,14 @@ class Executor:
                 self._dyn_checks.append((n, hook(bound[n], c.params[n])))
         return out
 
-    def apply_contract(self, c: Contract, args, kwargs, st: State, sink, node=None):
+    def apply_contract(self, c: Contract, args, kwargs, st: State, sink, node=None, closure_env=None):
         variants = self.w.variants.get(c.target)
         bound = None
         if variants:
             err = None
             for cv in variants:
+                if getattr(cv, "verify_only", False):
+                    continue   # a variant with a narrowing precondition, verified on its own; call sites use the general variant
                 try:
                     bound = self.bind_contract_args(cv, args, kwargs, st)
                     c = cv
@@ -1158,6 +1166,12 @@ class Executor:
         (self.used_trusted if c.trusted else self.used_contracts).add(c.target)
         if bound is None:
             bound = self.bind_contract_args(c, args, kwargs, st)
+        if c.closure and closure_env is not None:
+            # a nested function called where it was defined: its free variables are the enclosing scope's current values
+            for n, t in c.closure.items():
+                if n in closure_env and n not in bound:
+                    v = closure_env[n]
+                    bound[n] = v if (isinstance(t, SV) or v.ty.kind == "func") else coerce(v, t)
         a = Args(bound)
         h = HeapView(st.heap.copy(), st.held)
         for n, f in getattr(self, "_dyn_checks", []):
@@ -1968,9 +1982,12 @@ class Executor:
                     st.assume(v.v > 0)
         clos = None
         if c.closure:
-            clos = {n: fresh(t, n) for n, t in c.closure.items()}   # free variables of a nested function: symbolic like parameters
-            self.inputs.update(clos)
+            # free variables of a nested function: symbolic like parameters; a module / function of the enclosing scope is given as a value
+            clos = {n: (t if isinstance(t, SV) else fresh(t, n)) for n, t in c.closure.items()}
+            self.inputs.update({n: v for n, v in clos.items() if v.ty.kind != "func"})
             for v in clos.values():
+                if v.ty.kind == "func":
+                    continue
                 for r in _refs_in(v):
                     st.assume(z3.Or(r == 0, self.alloc_sel(st.heap, r)))
         a = Args(dict(params, **(clos or {})))
